@@ -298,7 +298,9 @@ def build(w):
 
 
 MANIFEST_ENTRY = {
-    'text': 'Proof of the sequential core of the queues (one thread inside each operation): Queue.put takes a place of the '
+    'text': 'PARTIAL (the sequential core; the property as stated quantifies over interleavings of producers, consumers and '
+            'the feeder thread, which contracts on single calls do not decide).  '
+            'Proof of the sequential core of the queues (one thread inside each operation): Queue.put takes a place of the '
             'capacity semaphore and only then appends the item at the tail of the buffer (Full is raised without buffering, '
             'only for a non-blocking or timed put, and not before the timeout has elapsed on the ghost clock); Queue.get, in '
             'all three modes, receives exactly one message and gives exactly one place back, raises Empty without receiving '
